@@ -778,7 +778,11 @@ func main() {
 		os.Exit(replay(os.Args[3]))
 	case "selftest":
 		tier = "quick"
-		os.Exit(selftest(40))
+		n := 40
+		if v, err := strconv.Atoi(os.Getenv("VERIF_SELFTEST_PLANS")); err == nil && v > 0 {
+			n = v // a larger sample on request (after a new seam or fault kind)
+		}
+		os.Exit(selftest(n))
 	case "quick", "thorough":
 		tier = mode
 		os.Exit(check())
